@@ -235,3 +235,27 @@ FIXED = [
     "function f(){ return [...arguments].map(x => { for (var i = 0; i < x; i++) {} return i; }); }",
     "function* g(){ var x = yield* (function*(){ for (;;) { var r = yield 1; if (r) return r; } })(); }",
 ]
+
+
+def _label_continue_corpus():
+    forms = {
+        "while": "var n = 0; LABS while (n < 9) { n++; CONT }",
+        "do": "var n = 0; LABS do { n++; CONT } while (n < 9);",
+        "for": "LABS for (var i = 0; i < 9; i++) { CONT }",
+        "forlet": "LABS for (let i = 0; i < 9; i++) { (() => i)(); CONT }",
+        "forof": "LABS for (var x of [1,2,3]) { CONT }",
+        "forin": "LABS for (var x in {p:1}) { CONT }",
+        "forawait": "async function f(){ LABS for await (var x of [1,2]) { CONT } }",
+        "gen-do": "function* g(){ var n = 0; LABS do { n++; yield n; CONT } while (n < 9); }",
+    }
+    out = []
+    for t in forms.values():
+        for labs, cont in [("", "continue;"), ("a:", "continue a;"), ("a: b:", "continue a;"), ("a: b:", "continue b;"), ("a: b: c:", "continue a;"),
+                           ("a: b: c:", "continue b;"), ("a: b:", "try { continue a; } finally { }"), ("", "try { continue; } finally { }"),
+                           ("a:", "for (;;) { continue a; }"), ("a:", "do { try { continue a; } finally { } } while (0);"),
+                           ("a: b:", "switch (1) { case 1: continue a; }")]:
+            out.append(t.replace("LABS", labs).replace("CONT", cont))
+    return out
+
+
+FIXED += _label_continue_corpus()
